@@ -316,6 +316,10 @@ func c16Caps() []capT {
 		{"gr-len2", []byte{64, 2, 0, 120}},
 		{"gr-len0", []byte{64, 0}},
 		{"cap-overrun", []byte{70, 200, 1, 2}},
+		// capabilities the session does not interpret: RFC 5492 has them ignored
+		{"ext-nexthop", []byte{5, 6, 0, 1, 0, 1, 0, 2}},
+		{"role", []byte{9, 1, 0}},
+		{"private-239", []byte{239, 0}},
 	}
 }
 
